@@ -66,6 +66,9 @@ structure CtorSpec where
   params : List (String × PTy × Option Val)     -- remaining parameters: name, annotation, default
   guards : List Guard                           -- in source order
   values : List (String × VE)                   -- the value dictionary it writes, in source order
+  /-- `periodic_function(<param>)` calls between the guards and the `return`: parameter and the
+  wavetype strings the lookup knows (it raises `UnknownWavetype` for anything else) -/
+  waveChecks : List (String × List String) := []
 deriving DecidableEq, Repr
 
 /-! ### translators of `Circuit/transformers.py` (Gen/Transform.lean) -/
@@ -104,6 +107,7 @@ inductive HArg where
   | w            -- the analysis frequency
   | harmAmp      -- `frequency_properties.amplitude(n)`
   | harmPhase    -- `frequency_properties.phase(n)`
+  | key (k : String)   -- `float(source.value[k])` (read only when the source is active)
 deriving DecidableEq, Repr
 
 inductive TBody where
